@@ -209,3 +209,97 @@ func TestVerifC33TruncationSweep13(t *testing.T) {
 		}
 	}
 }
+
+// ---- record-level sweep: every record the server writes (plaintext or protected) cut to every short body length ----
+
+type vf33RecCfg struct {
+	Name    string
+	ID      ClientHelloID
+	KeyType string
+	Ver     uint16
+	Suites  []uint16 // TLS <= 1.2: the server's only suites (pins AES-GCM with its explicit nonce, CBC, ChaCha20, ...)
+}
+
+func vf33RecordRun(c vf33RecCfg, sni string, cutRec, keep int) (out vf33Outcome, lens []int, types []uint8) {
+	cp, sp := vfPipe()
+	ccfg := vfClientConfig(sni)
+	ccfg.OmitEmptyPsk = true
+	uc := UClient(cp, ccfg, c.ID)
+	scfg := vfServerConfig(c.KeyType, sni)
+	scfg.MinVersion, scfg.MaxVersion = c.Ver, c.Ver
+	if c.Suites != nil {
+		scfg.CipherSuites = c.Suites
+	}
+	idx := 0
+	sp.filter = func(rec []byte) []byte {
+		if len(rec) < 5 {
+			return rec
+		}
+		n := len(rec) - 5
+		lens = append(lens, n)
+		types = append(types, rec[0])
+		if idx == cutRec && keep >= 0 && keep < n {
+			o := append([]byte(nil), rec[:5+keep]...)
+			o[3], o[4] = byte(keep>>8), byte(keep)
+			rec = o
+		}
+		idx++
+		return rec
+	}
+	srv := Server(sp, scfg)
+	out = vf33Drive(uc, cp, sp, func() {
+		if err := srv.Handshake(); err == nil {
+			srv.Write([]byte("hello from the server"))
+			srv.Write([]byte("x"))
+		}
+	})
+	return out, lens, types
+}
+
+func TestVerifC33RecordTruncationSweep(t *testing.T) {
+	if sh := os.Getenv("VERIF_SHARD"); sh != "" && sh != "0" {
+		t.Skip("deterministic sweep: runs in shard 0 only")
+	}
+	st := vfNewStats(t, "C33")
+	cfgs := []vf33RecCfg{
+		{"Chrome_120/TLS1.2/ECDHE-RSA-AES128-GCM", HelloChrome_120, "rsa", VersionTLS12, []uint16{TLS_ECDHE_RSA_WITH_AES_128_GCM_SHA256}},
+		{"Firefox_105/TLS1.2/ECDHE-ECDSA-CHACHA20", HelloFirefox_105, "ecdsa", VersionTLS12, []uint16{TLS_ECDHE_ECDSA_WITH_CHACHA20_POLY1305_SHA256}},
+		{"Golang/TLS1.2/ECDHE-RSA-AES128-CBC-SHA", HelloGolang, "rsa", VersionTLS12, []uint16{TLS_ECDHE_RSA_WITH_AES_128_CBC_SHA}},
+		{"Chrome_133/TLS1.3", HelloChrome_133, "ecdsa", VersionTLS13, nil},
+		{"Golang/TLS1.3", HelloGolang, "rsa", VersionTLS13, nil},
+	}
+	if vfThorough() {
+		cfgs = append(cfgs,
+			vf33RecCfg{"iOS_14/TLS1.2/ECDHE-ECDSA-AES256-GCM", HelloIOS_14, "ecdsa", VersionTLS12, []uint16{TLS_ECDHE_ECDSA_WITH_AES_256_GCM_SHA384}},
+			vf33RecCfg{"Golang/TLS1.2/RSA-AES128-GCM", HelloGolang, "rsa", VersionTLS12, []uint16{TLS_RSA_WITH_AES_128_GCM_SHA256}},
+			vf33RecCfg{"Golang/TLS1.0/ECDHE-RSA-AES128-CBC-SHA", HelloGolang, "rsa", VersionTLS10, []uint16{TLS_ECDHE_RSA_WITH_AES_128_CBC_SHA}},
+			vf33RecCfg{"Golang/TLS1.2/ECDHE-RSA-3DES", HelloGolang, "rsa", VersionTLS12, []uint16{TLS_ECDHE_RSA_WITH_3DES_EDE_CBC_SHA}},
+			vf33RecCfg{"Safari_16_0/TLS1.3", HelloSafari_16_0, "ecdsa", VersionTLS13, nil})
+	}
+	for _, c := range cfgs {
+		sni := "records.c33.test"
+		base, lens, types := vf33RecordRun(c, sni, -1, -1)
+		if base.CliErr != nil || base.Panic != nil {
+			st.Class("record-sweep-baseline-failed: " + c.Name)
+			continue
+		}
+		for ri, n := range lens {
+			for k := 0; k < n; k++ {
+				if k > 72 && k != n-1 && !(vfThorough() && k%97 == 0) {
+					continue // short bodies (below nonce + tag + MAC sizes) and the one-short case
+				}
+				st.Eval()
+				out, _, _ := vf33RecordRun(c, sni, ri, k)
+				desc := fmt.Sprintf("%s: server record #%d (type %d, body %d bytes) replaced by its first %d body bytes", c.Name, ri, types[ri], n, k)
+				if out.Panic != nil {
+					st.Violation(t, "%s: client panicked: %v\n%s", desc, out.Panic.Val, out.Panic.Stack)
+				}
+				if out.Hang {
+					st.Violation(t, "%s: client Handshake/Read did not return within the connection deadline + 10 s", desc)
+				}
+				st.Class(fmt.Sprintf("record-sweep:type=%d", types[ri]))
+				st.NonTrivial(fmt.Sprintf("recsweep|%s|%d|%d", c.Name, ri, k))
+			}
+		}
+	}
+}
